@@ -206,6 +206,21 @@ def rule_sym_cmp(crate):
     ]
     for fn, label in fns:
         check_binary(crate, fn, out, label)
+    # equality and ordering must use the same (IEEE) comparison family on the values
+    for fn, label in fns:
+        calls = [(callee(x) or "", x) for x in walk(fn["body"]) if x.get("k") in ("MethodCall", "Call", "Binary")]
+        total = [c for c, _x in calls if c.endswith("::total_cmp")]
+        ff, ll = crate.file_of(fn), fn["line"]
+        if label.endswith("::eq"):
+            good = any(c.endswith("PartialEq>::eq") or c.endswith("PartialEq::eq") for c, _x in calls)
+            want = "`==` of the values"
+        else:
+            good = any(c.endswith("PartialOrd>::partial_cmp") or c.endswith("PartialOrd::partial_cmp") for c, _x in calls)
+            want = "`partial_cmp` of the values"
+        if total or not good:
+            out.violation("%s:ieee" % label, ff, ll, "%s does not decide by %s%s: `a < b`, `a == b`, `a > b` are then not mutually exclusive (e.g. -0 vs +0)" % (label, want, " (uses f64::total_cmp)" if total else ""))
+        else:
+            out.ok("%s:ieee" % label, ff, ll, "decided by %s (IEEE semantics, consistent between == and the ordering)" % want)
     # NaN handling precedes any conversion in partial_cmp_preserve_nan
     fn = fns[2][0]
     nan_line = conv_line = None
